@@ -727,7 +727,11 @@ fn split_count(s: &str) -> (String, usize) {
 }
 
 pub fn place_anchor(block: &mut syn::Block, anchor: &str) -> Result<(), String> {
-    let lit = syn::LitStr::new(anchor, proc_macro2::Span::call_site());
+    place_anchor_as(block, anchor, anchor)
+}
+/// locate `anchor` (possibly translated to the current names) but emit the marker under the name the contract uses
+pub fn place_anchor_as(block: &mut syn::Block, anchor: &str, marker_name: &str) -> Result<(), String> {
+    let lit = syn::LitStr::new(marker_name, proc_macro2::Span::call_site());
     let marker: syn::Stmt = syn::parse_quote!(__vx_at!(#lit););
     let (block_id, index) = if anchor == "fn:begin" {
         (0usize, 0usize)
